@@ -157,7 +157,14 @@ func (h Handler) ServeHTTP(w http.ResponseWriter, r *http.Request) (int, error) 
 			case "GET":
 				resp, err = fcgiBackend.Get(env, r.Body, contentLength)
 			case "OPTIONS":
-				resp, err = fcgiBackend.Options(env)
+				if r.ContentLength == 0 {
+					resp, err = fcgiBackend.Options(env)
+				} else {
+					// an OPTIONS request may carry a body; pass it on
+					env["REQUEST_METHOD"] = "OPTIONS"
+					env["CONTENT_LENGTH"] = strconv.FormatInt(contentLength, 10)
+					resp, err = fcgiBackend.Request(env, r.Body)
+				}
 			default:
 				resp, err = fcgiBackend.Post(env, r.Method, r.Header.Get("Content-Type"), r.Body, contentLength)
 			}
